@@ -19,7 +19,7 @@ from ..drivers import laws as drv
 from ..report import Report
 
 PID = "C13"
-CAP = {"quick": 4000, "thorough": 40000}
+CAP = {"quick": 4000, "thorough": 10000}
 
 
 def run():
